@@ -1,7 +1,7 @@
 #!/bin/bash
-# tools/try_seed.sh <Cxx> <seed_dir> [tier] : confirm a seeded change independently, then run the check against it
-# 1. fresh scratch worktree: patch applies, demo fails with it / passes without it, test-suite green with it
-# 2. apply to /repo, run ./check, revert
+# tools/try_seed.sh <Cxx> <seed_dir> [tier] : confirm a seeded change independently, then run the check against it.
+# Uses a scratch worktree (removed afterwards) and PAULIE_REPO, so /repo itself is never touched and other runs are
+# not disturbed; `git -C /repo apply patch.diff; ./check Cxx; git -C /repo checkout -- .` is equivalent.
 set -u
 id=$1; seed=$2; tier=${3:-quick}
 wt=/tmp/confirm_$id
@@ -11,10 +11,9 @@ PAULIE_SRC=$wt/src /venv/bin/python $seed/demo.py >/dev/null 2>&1; echo "demo on
 ( cd $wt && git apply $seed/patch.diff ) || { echo "patch does not apply"; git -C /repo worktree remove --force $wt; exit 2; }
 PAULIE_SRC=$wt/src /venv/bin/python $seed/demo.py >/tmp/confirm_$id.demo 2>&1; echo "demo on changed tree: exit $? ($(tail -1 /tmp/confirm_$id.demo | cut -c1-150))"
 ( cd $wt && /venv/bin/python -m pytest -q -p no:cacheprovider --timeout=900 -x 2>&1 | tail -1 )
-git -C /repo worktree remove --force $wt
 cd /verif
-git -C /repo apply $seed/patch.diff || { echo "cannot apply to /repo"; exit 2; }
-./check $id --tier $tier > /tmp/confirm_$id.check 2>&1; rc=$?
-git -C /repo checkout -- .
+cp evidence/$id.json /tmp/confirm_$id.evidence.bak 2>/dev/null
+PAULIE_REPO=$wt ./check $id --tier $tier > /tmp/confirm_$id.check 2>&1; rc=$?
+cp /tmp/confirm_$id.evidence.bak evidence/$id.json 2>/dev/null
+git -C /repo worktree remove --force $wt
 echo "check $id --tier $tier on changed tree: exit $rc"; grep -c '^VIOLATION' /tmp/confirm_$id.check; grep '^#' /tmp/confirm_$id.check | head -3 | cut -c1-300; tail -1 /tmp/confirm_$id.check
-git -C /repo status --short | head -3
